@@ -40,8 +40,11 @@ RULE = ('bounded-exhaustive block: every (rows, cols) in 2..40 x 2..40 with ever
         'integer images from node values that are multiples of factor**2), 3-D/4-D degenerate axes, fully random and bilinear images); headers '
         'rotate through SIN/TAN/ZEA/ARC/STG, CDELT and CD form (CD: rotation-free, rotated by any angle, slightly rotated '
         'and skewed, i.e. non-zero CD1_2/CD2_1), both signs, non-integer and off-image CRPIX; compressed '
-        'aux files through load_image_band, SourceFinder._load_aux_image and load_globals; thorough adds the SR6 CLI '
-        '(with and without -f, with -m) and BANE --compress output.  One evaluation = one compress+expand round trip '
+        'aux files through load_image_band, SourceFinder._load_aux_image and load_globals; BANE --compress through '
+        'BANE.filter_image and the BANE command line (both products expanded by expand, load_image_band, SR6 -x and '
+        'load_globals, headers judged against the image BANE was given); tall/narrow and wide/short images with the '
+        'long axis 1023..5000 (thorough: to 12000) x factors 3,5,7,10,13,41; thorough adds the SR6 CLI '
+        '(with and without -f, with -m).  One evaluation = one compress+expand round trip '
         '(or one aux load) with all clauses judged; non-trivial = factor > 1; distinct = distinct '
         '(rows, cols, factor, header form, input mode) tuples')
 ASSUMPTIONS = ['astropy.io.fits as file reader/writer (20-character float cards: >= 15 significant digits)',
@@ -53,7 +56,9 @@ MIN_REACH = {'fits_tools:compress': 1, 'fits_tools:expand': 1, 'fits_tools:load_
              'source_finder:SourceFinder._load_aux_image': 1}
 MIN_COUNTERS = {
     'quick': {'roundtrips': 15000, 'roundtrips_file': 1000, 'nodes_checked': 100000, 'linear_cells_judged': 5000,
-              'residual_rows_and_cols': 3000, 'factor_gt_size': 500, 'aux_loads': 100, 'integer_pixel_roundtrips': 5000, 'integer_pixel_roundtrips_file': 300,
+              'residual_rows_and_cols': 3000, 'factor_gt_size': 500, 'aux_loads': 100, 'bane_compressed_runs': 4, 'bane_products_judged': 8, 'bane_cli_runs': 2,
+              'bane_pairs_through_load_globals': 2, 'tall_roundtrips': 60,
+              'long_axis_gt_1024_factor_not_dividing_1024': 50, 'integer_pixel_roundtrips': 5000, 'integer_pixel_roundtrips_file': 300,
               'integer_linear_images_factor_not_power_of_2': 1500, 'cd_headers': 3000, 'cd_rotated': 1500, 'cd_skewed': 1500,
               'offdiagonal_cd_terms_compared': 5000,
               'noninteger_crpix': 3000, 'negative_cdelt2': 1000},
@@ -62,7 +67,9 @@ MIN_COUNTERS = {
                  'aux_loads': 400, 'integer_pixel_roundtrips': 15000, 'integer_pixel_roundtrips_file': 2000,
                  'integer_linear_images_factor_not_power_of_2': 5000, 'cd_headers': 8000, 'cd_rotated': 4000, 'cd_skewed': 4000,
                  'offdiagonal_cd_terms_compared': 15000, 'noninteger_crpix': 8000, 'negative_cdelt2': 3000,
-                 'sr6_runs': 100, 'bane_compressed_runs': 4},
+                 'sr6_runs': 100, 'bane_compressed_runs': 16, 'bane_products_judged': 32, 'bane_cli_runs': 8,
+                 'bane_pairs_through_load_globals': 8, 'tall_roundtrips': 300,
+                 'long_axis_gt_1024_factor_not_dividing_1024': 250, 'long_axis_gt_4096': 40},
 }
 
 EPS32 = float(np.finfo(np.float32).eps)
@@ -81,6 +88,7 @@ def header_for(idx, rows, cols, rng, allow_rot=True):
     s1 = -1.0 if (idx // 10) % 2 == 0 else 1.0
     s2 = 1.0 if (idx // 20) % 3 != 2 else -1.0
     scale = 10 ** rng.uniform(-3.5, -1.9)           # <= 0.0126 deg/pixel: 400 pixels stay within ~7 deg
+    scale = min(scale, 5.0 / max(rows, cols))       # tall/wide images: the long side spans <= 5 deg
     cd = (s1 * scale, s2 * scale * rng.uniform(0.8, 1.25))
     form = (idx // 7) % 4
     if form == 0:
@@ -634,55 +642,152 @@ def sr6_case(o, rng, rows, cols, f, idx, tmp, variant):
         pass
 
 
-def bane_case(o, rng, rows, cols, f, idx, tmp):
+def bane_case(o, rng, rows, cols, f, idx, tmp, variant='api'):
+    """the compress path as BANE drives it: two products (bkg, rms) made from ONE image header by
+    BANE.filter_image(compressed=True) or the `BANE --compress` command line.  BOTH products are expanded
+    (fits_tools.expand, load_image_band, and SR6 -x for the CLI variant) and their restored headers are judged against
+    the header of the image BANE was given; both must be accepted by Aegean as background/noise files."""
+    import logging
     from astropy.io import fits
     from AegeanTools import BANE, fits_tools as ft
+    from AegeanTools.source_finder import SourceFinder
     hdr, hinfo = header_for(idx, rows, cols, rng)
-    wit = {'rows': rows, 'cols': cols, 'factor': f, 'mode': 'BANE --compress', 'header': hinfo}
+    wit = {'rows': rows, 'cols': cols, 'factor': f, 'mode': 'BANE --compress (%s)' % variant, 'header': hinfo}
     yy, xx = np.mgrid[0:rows, 0:cols]
     img = (rng.normal(0, 1, (rows, cols)) + 0.02 * yy - 0.01 * xx).astype(np.float32)
     p0 = os.path.join(tmp, 'b.fits')
     fits.PrimaryHDU(img, header=hdr.copy()).writeto(p0, overwrite=True)
+    orig_hdr = fits.getheader(p0)
     base = os.path.join(tmp, 'bout')
+    for name in ('bkg', 'rms'):
+        if os.path.exists(base + '_%s.fits' % name):
+            os.remove(base + '_%s.fits' % name)
+    out = None
+    root = logging.getLogger()
+    level, handlers = root.level, list(root.handlers)
     try:
-        out = BANE.filter_image(im_name=p0, out_base=base, step_size=(f, f), box_size=(3 * f, 3 * f), cores=1,
-                                nslice=1, compressed=True)
+        if variant == 'api':
+            out = BANE.filter_image(im_name=p0, out_base=base, step_size=(f, f), box_size=(3 * f, 3 * f), cores=1,
+                                    nslice=1, compressed=True)
+            if out is None:
+                o.violate('returns_none', dict(wit, stage='BANE.filter_image'))
+                return
+        else:
+            from AegeanTools.CLI import BANE as cli
+            rc = cli.main([p0, '--out', base, '--grid', str(f), str(f), '--box', str(3 * f), str(3 * f),
+                           '--cores', '1', '--stripes', '1', '--compress'])
+            o.count('bane_cli_runs')
+            if rc != 0:
+                o.violate('returns_none', dict(wit, stage='BANE command line returned %r' % rc))
+                return
     except Exception:
-        o.violate('raises', dict(wit, stage='BANE.filter_image', exc=_tail()))
+        o.violate('raises', dict(wit, stage='BANE ' + variant, exc=_tail()))
         return
-    if out is None:
-        o.violate('returns_none', dict(wit, stage='BANE.filter_image'))
-        return
+    finally:
+        root.setLevel(level)
+        for h_ in list(root.handlers):
+            if h_ not in handlers:
+                root.removeHandler(h_)
     o.count('bane_compressed_runs')
-    for full, name in zip(out, ('bkg', 'rms')):
+    expanded = {}
+    for k_, name in enumerate(('bkg', 'rms')):
         p = base + '_%s.fits' % name
+        w = dict(wit, file=name)
         if not os.path.exists(p):
-            o.violate('returns_none', dict(wit, stage='BANE wrote no ' + name))
+            o.violate('returns_none', dict(w, stage='BANE wrote no ' + name))
             continue
         comp_hdr = fits.getheader(p)
         if not all(k in comp_hdr for k in BN_KEYS):
-            o.violate('bane_not_compressed', dict(wit, file=name))
+            o.violate('bane_not_compressed', w)
             continue
+        if comp_hdr['BN_CFAC'] != f:
+            o.count('info_bane_factor_differs_from_grid')
         comp_data = fits.getdata(p)
+        full = None if out is None else np.asarray(out[k_], dtype=np.float32)
+        # (a) fits_tools.expand on the product
+        try:
+            with fits.open(p) as hl:
+                e = ft.expand(hl)
+                e_data, e_hdr = np.array(e[0].data), e[0].header.copy()
+        except Exception:
+            o.violate('raises', dict(w, stage='expand of the BANE product', exc=_tail()))
+            continue
+        ref_img = full if full is not None and full.shape == (rows, cols) else e_data
+        judge(o, dict(w, via='fits_tools.expand'), ref_img, orig_hdr, comp_data, e_data, e_hdr, int(comp_hdr['BN_CFAC']),
+              (0, 0), judged_linear=False)
+        o.count('bane_products_judged')
+        o.n_eval += 1
+        o.n_nontrivial += 1
+        expanded[name] = e_data
+        # (b) transparent expansion on load
         try:
             d, h = ft.load_image_band(p)
         except Exception:
-            o.violate('aux_rejected', dict(wit, by='load_image_band', file=name, exc=_tail()))
+            o.violate('aux_rejected', dict(w, by='load_image_band', exc=_tail()))
             continue
         o.count('aux_loads')
         o.n_eval += 1
-        o.n_nontrivial += 1
         if np.shape(d) != (rows, cols):
-            o.violate('aux_shape', dict(wit, by='load_image_band', file=name, got=list(np.shape(d))))
+            o.violate('aux_shape', dict(w, by='load_image_band', got=list(np.shape(d))))
             continue
-        fl = np.asarray(full, dtype=np.float32)
+        judge(o, dict(w, via='load_image_band'), ref_img, orig_hdr, comp_data, d, h, int(comp_hdr['BN_CFAC']), (0, 0),
+              judged_linear=False)
+        # (c) the SR6 command line
+        if variant == 'cli':
+            from AegeanTools.CLI import SR6
+            pe = os.path.join(tmp, 'sr6_%s.fits' % name)
+            if os.path.exists(pe):
+                os.remove(pe)
+            try:
+                SR6.main([p, '-x', '-o', pe])
+            except Exception:
+                o.violate('raises', dict(w, stage='SR6 -x on the BANE product', exc=_tail()))
+            else:
+                if not os.path.exists(pe):
+                    o.violate('returns_none', dict(w, stage='SR6 -x wrote nothing'))
+                else:
+                    judge(o, dict(w, via='SR6 -x'), ref_img, orig_hdr, comp_data, fits.getdata(pe), fits.getheader(pe),
+                          int(comp_hdr['BN_CFAC']), (0, 0), judged_linear=False)
+                    o.count('bane_products_through_sr6')
+            finally:
+                root.setLevel(level)
+                for h_ in list(root.handlers):
+                    if h_ not in handlers:
+                        root.removeHandler(h_)
         # is the BANE map itself bilinear between the decimation nodes?  (informational; then `linear` applies)
         K, L = (rows - 1) // f, (cols - 1) // f
-        judge(o, dict(wit, file=name), fl, fits.getheader(p0), comp_data, d, h, f, (0, 0), judged_linear=False)
-        if K >= 1 and L >= 1 and np.all(np.isfinite(fl)):
-            M = float(np.max(np.abs(fl[::f, ::f])))
+        if full is not None and full.shape == (rows, cols) and K >= 1 and L >= 1 and np.all(np.isfinite(full)):
+            M = float(np.max(np.abs(full[::f, ::f])))
             o.worst('info_bane_map_vs_expanded_rel_node_range',
-                    float(np.max(np.abs(d[:K * f + 1, :L * f + 1] - fl[:K * f + 1, :L * f + 1]))) / max(M, 1e-30))
+                    float(np.max(np.abs(d[:K * f + 1, :L * f + 1] - full[:K * f + 1, :L * f + 1]))) / max(M, 1e-30))
+    # (d) Aegean accepts both products wherever it accepts the uncompressed maps
+    if len(expanded) == 2:
+        plain = {}
+        for name in ('bkg', 'rms'):
+            plain[name] = os.path.join(tmp, 'plain_%s.fits' % name)
+            fits.PrimaryHDU(expanded[name], header=hdr.copy()).writeto(plain[name], overwrite=True)
+        got = {}
+        for label, fb, fr in (('plain', plain['bkg'], plain['rms']), ('compressed', base + '_bkg.fits', base + '_rms.fits')):
+            sf = SourceFinder()
+            try:
+                sf.load_globals(p0, bkgin=fb, rmsin=fr, do_curve=False, cores=1)
+                got[label] = (np.array(sf.global_data.bkgimg), np.array(sf.global_data.rmsimg))
+            except Exception:
+                got[label] = _tail()
+        if isinstance(got['plain'], str):
+            o.count('aux_baseline_rejected')
+            o.see('aux_baseline_exception', got['plain'].strip().splitlines()[-1][:120])
+        else:
+            o.count('aux_loads')
+            o.count('bane_pairs_through_load_globals')
+            o.n_eval += 1
+            if isinstance(got['compressed'], str):
+                o.violate('aux_rejected', dict(wit, by='load_globals(bkgin, rmsin)', exc=got['compressed']))
+            elif got['compressed'][0].shape != (rows, cols) or got['compressed'][1].shape != (rows, cols):
+                o.violate('aux_shape', dict(wit, by='load_globals', got=[list(x.shape) for x in got['compressed']]))
+            elif not (np.array_equal(got['compressed'][0], got['plain'][0], equal_nan=True)
+                      and np.array_equal(got['compressed'][1], got['plain'][1], equal_nan=True)):
+                o.violate('aux_values', dict(wit, by='load_globals'))
 
 
 # ----------------------------------------------------------------------------- cases / run
@@ -701,8 +806,23 @@ def cases(seed, tier):
     if tier == 'thorough':
         for k in range(16):
             out.append({'kind': 'sr6', 'n': 12, 'seed': [seed, 'sr6', k]})
-        for k in range(8):
-            out.append({'kind': 'bane', 'seed': [seed, 'bane', k]})
+    # BANE --compress: both tiers, through the API and through the command line
+    for k in range(4 if tier == 'quick' else 16):
+        out.append({'kind': 'bane', 'variant': ('api', 'cli')[k % 2], 'seed': [seed, 'bane', k]})
+    # tall / wide images (seed-independent shapes; the pixel values and headers are seeded)
+    shapes = [(1500, 9), (2500, 7), (9, 1500), (4100, 5), (5000, 3), (7, 2500), (1025, 4), (1030, 6), (2049, 3),
+              (3, 4100), (1100, 40)]
+    factors = [3, 5, 7, 10, 13, 41]
+    if tier == 'thorough':
+        shapes += [(9000, 4), (4, 9000), (12000, 3), (3000, 30), (30, 3000), (8193, 5), (1024, 8), (1023, 8), (6000, 11)]
+        factors += [2, 6, 16, 33, 64]
+        rng = rng_for(seed, 'c15-tall')
+        shapes += [(int(rng.integers(1025, 7000)), int(rng.integers(2, 12))) for _ in range(10)]
+        shapes += [(int(rng.integers(2, 12)), int(rng.integers(1025, 7000))) for _ in range(6)]
+    work = [[r, c, f] for (r, c) in shapes for f in factors]
+    per = 11 if tier == 'quick' else 20
+    for k in range(0, len(work), per):
+        out.append({'kind': 'tall', 'work': work[k:k + per], 'seed': [seed, 'tall', k]})
     return out
 
 
@@ -767,8 +887,23 @@ def run(case):
             rows = int(rng.integers(60, 140))
             cols = int(rng.integers(60, 140))
             f = int(rng.choice([4, 5, 7, 8, 10]))
-            bane_case(o, rng, rows, cols, f, int(rng.integers(0, 10000)), tmp)
-            o.sample = {'rows': rows, 'cols': cols, 'factor': f}
+            bane_case(o, rng, rows, cols, f, int(rng.integers(0, 10000)), tmp, variant=case.get('variant', 'api'))
+            o.sample = {'rows': rows, 'cols': cols, 'factor': f, 'variant': case.get('variant', 'api')}
+        elif kind == 'tall':
+            # size strata beyond typical chunk sizes: tall/narrow and wide/short images
+            for k, (rows, cols, f) in enumerate(case['work']):
+                dt = [np.float32, np.int32, np.float32, np.float64][k % 4]
+                mode = 'file' if k % 3 == 1 else 'mem'
+                roundtrip(ft, fits, o, rng, rows, cols, f, int(rng.integers(0, 10000)), mode, tmp, linear=(k % 5 != 4),
+                          dtype=dt)
+                o.count('tall_roundtrips')
+                if max(rows, cols) > 1024 and 1024 % f:
+                    o.count('long_axis_gt_1024_factor_not_dividing_1024')
+                if max(rows, cols) > 4096:
+                    o.count('long_axis_gt_4096')
+                o.worst('max_rows_driven', rows)
+                o.worst('max_cols_driven', cols)
+            o.sample = {'work': case['work'][:4]}
         else:
             raise ValueError(kind)
         return o.result()
